@@ -54,7 +54,12 @@ Definition before_completion (pkt : option pdu) : D unit :=
   when b check_limit_handling ;;;
   b <- step_is DS_WAITING_FOR_MISSING_DATA ;;
   when b
-    ((match pkt with Some (PEof _ _ _ _ _) => prepare_eof_ack_packet | _ => ret tt end) ;;;
+    ((match pkt with
+      | Some (PEof _ cond ck sz _) =>
+          if cond =? C_NO_ERROR then prepare_eof_ack_packet
+          else (setp (fun p => p <| p_deferred := false |>) ;;; handle_eof_pdu cond ck sz)
+      | _ => ret tt
+      end) ;;;
      (match pkt with
       | Some (PFileData _ off data) =>
           handle_fd_pdu off data ;;;
@@ -290,6 +295,9 @@ Proof.
     unfold handle_eof_pdu. rewrite Hc. pw.
 Qed.
 #[local] Hint Resolve ni_handle_eof_without_previous_metadata : pw.
+(* (F33 repair) the cancel branch of handle_eof_pdu verifies nothing *)
+Lemma ni_handle_eof_pdu_cancel : forall c ck sz, (c =? C_NO_ERROR) = false -> pres NI NI (handle_eof_pdu c ck sz).
+Proof. intros c ck sz Hc. unfold handle_eof_pdu. rewrite Hc. pw. Qed.
 Lemma ni_handle_fd_without_previous_metadata : forall f o d, pres NI NI (handle_fd_without_previous_metadata f o d).
 Proof. intros. pw. Qed.
 #[local] Hint Resolve ni_handle_fd_without_previous_metadata : pw.
@@ -648,7 +656,11 @@ Proof.
     - destruct H as (_ & _ & H3). apply H3, E. }
   apply guard_inv_last.
   intros s H E. assert (Hn : NI s) by (apply (early_ni s _ H E); steps; lia). clear H E; revert s Hn.
-  apply (pres_bind _ NI _); [destruct pkt as [[]|]; pw | apply NI_inv | intros _].
+  apply (pres_bind _ NI _); [| apply NI_inv | intros _].
+  { (* a re-sent EOF is acknowledged; an EOF (cancel) gets the Cancel Response Procedures (F33 repair) *)
+    destruct pkt as [[h off data|h cl ck sz names msgs|h c ck sz fl| | | | | ]|]; try solve [pw].
+    destruct (c =? C_NO_ERROR) eqn:Hc; [pw|].
+    apply (pres_bind _ NI _); [pw | trivial | intros _; apply ni_handle_eof_pdu_cancel, Hc]. }
   apply (pres_bind _ NI _); [destruct pkt as [[]|]; pw | apply NI_inv | intros _].
   apply inv_deferred_lost_segment_handling.
 Qed.
